@@ -22,6 +22,31 @@ type SpecEnv struct {
 	pkg   string         // import path of the package the contract belongs to
 	bound map[string]T
 	depth int
+	goal  bool // the clause is being translated as a proof goal (never set for assumptions)
+	neg   bool // negative polarity (under a negation / on the left of an implication)
+}
+
+// Goal marks the environment as translating a proof goal: a subformula that mentions a path ghost (res_*, it_*) which
+// does not exist on the current path is then replaced by the constant that makes the goal stronger (false in positive,
+// true in negative positions). Assumptions are never translated this way: there such a clause is an error / skipped.
+func (e *SpecEnv) Goal() *SpecEnv { e.goal = true; return e }
+
+func (e *SpecEnv) flip() *SpecEnv {
+	c := *e
+	c.neg = !e.neg
+	return &c
+}
+
+// boolOrStronger translates a Bool subformula; see Goal.
+func (e *SpecEnv) boolOrStronger(x ast.Expr) T {
+	if !e.goal {
+		return e.wantBool(x)
+	}
+	t, ok := e.boolIfDefined(x)
+	if ok {
+		return t
+	}
+	return Bool(e.neg)
 }
 
 func (e *SpecEnv) child() *SpecEnv {
@@ -131,7 +156,7 @@ func (e *SpecEnv) tr(x ast.Expr) T {
 	case *ast.UnaryExpr:
 		switch x.Op {
 		case token.NOT:
-			return Not(e.wantBool(x.X))
+			return Not(e.flip().boolOrStronger(x.X))
 		case token.SUB:
 			return App(SInt, "-", e.wantInt(x.X))
 		}
@@ -291,17 +316,17 @@ func (e *SpecEnv) deref(x ast.Expr) T {
 func (e *SpecEnv) binary(x *ast.BinaryExpr) T {
 	switch x.Op {
 	case token.LAND:
-		a := e.wantBool(x.X)
+		a := e.boolOrStronger(x.X)
 		if e.cur.pcHas(Not(a)) {
 			return Bool(false)
 		}
-		return And(a, e.wantBool(x.Y))
+		return And(a, e.boolOrStronger(x.Y))
 	case token.LOR:
-		a := e.wantBool(x.X)
+		a := e.boolOrStronger(x.X)
 		if e.cur.pcHas(a) {
 			return Bool(true)
 		}
-		return Or(a, e.wantBool(x.Y))
+		return Or(a, e.boolOrStronger(x.Y))
 	case token.EQL, token.NEQ:
 		a, b := e.tr(x.X), e.tr(x.Y)
 		r := e.equal(a, b, x)
@@ -514,17 +539,11 @@ func (e *SpecEnv) call(x *ast.CallExpr) T {
 		// entry values of reassigned parameters: handled by caller providing vars
 		return c.tr(x.Args[0])
 	case "implies":
-		a := e.wantBool(x.Args[0])
+		a := e.flip().boolOrStronger(x.Args[0])
 		if e.cur.pcHas(Not(a)) {
 			return Bool(true) // antecedent is refuted on this path: the consequent need not even be well-defined here
 		}
-		b, defined := e.boolIfDefined(x.Args[1])
-		if !defined {
-			// the consequent speaks about a call result / iterator that does not exist on this path: the clause
-			// can only hold here if the antecedent is false (sound: a stronger obligation, never a weaker one)
-			return Not(a)
-		}
-		return Implies(a, b)
+		return Implies(a, e.boolOrStronger(x.Args[1]))
 	case "iff":
 		return Eq(e.wantBool(x.Args[0]), e.wantBool(x.Args[1]))
 	case "ite":
